@@ -8,7 +8,10 @@ tie: translator (T) + exhaustive three-way sweep (compiled Avoid::bends / extrac
 extracted verified route checker and compared in cost with the extracted grid oracle (sound; optimal over its Hanan-grid graph).
 Direction-restricted free endpoints (ConnDirFlags): framed scenes x all 15 x 15 flag combinations x penalties 0.5 / 10 / 50 / 400, decided by
 check_path_dirs + oracle_dirs (convention: flags name the side the connector attaches to; no turn at, no move into the source, no move out
-of the target); failures explained by libavoid's own search space are the known findings restricted_endpoint_search_space / _route_doubles_back."""
+of the target); failures explained by libavoid's own search space are the known findings restricted_endpoint_search_space / _route_doubles_back.
+Several routings in ONE process with different parameters (DESIGN 9.15): `c05_bends seq` handles a sequence of (scene, segmentPenalty) steps - new Router per
+scene and the same Router re-parameterised (setRoutingParameter + processTransaction / makePathInvalid / moveShape), penalties going up and down
+(0.5 .. 400) - each step judged by the same verified checker + oracle with the penalty in force; corpus/c05_seq.json first (seeded C05-6)."""
 import os, json
 from vlib import common as C
 
@@ -946,7 +949,12 @@ META = {
                   'endpoint, no move into the source or out of the target (gwalk). Calibration on HEAD: ~94% of such routes have exactly the oracle cost; ~5% are dearer and exactly optimal in the '
                   'Python model of libavoid\'s search space (classifier sight_line_model, NOT trusted for a verdict: known finding restricted_endpoint_search_space), ~2% run over their own '
                   'endpoint (known finding restricted_endpoint_route_doubles_back). Shape connection pins are C11\'s subject; touching rectangles are outside the '
-                  'generated domain (the oracle blocks shared sides: interior of the union). A bends() value BELOW the closed form is reported as a broken '
+                  'generated domain (the oracle blocks shared sides: interior of the union). Per-process state: the sweep / scene / direction families use ONE segmentPenalty per harness '
+                  'process, so a value cached across searches (function-local static, seeded C05-6) is invisible to them; the parameter-sequence family (`c05_bends seq`, '
+                  'corpus/c05_seq.json + 80 generated sequences of 2-4 scenes x 0-3 re-parameterisations, penalties alternating between {50,300,400} and {0.5,1,2}, sometimes 10) routes several '
+                  'scenes with different penalties in one process, each judged with the penalty in force; a failing step is minimised to (earlier step, failing step) as two new Routers. segmentPenalty 0 '
+                  'is outside the domain (COLA_ASSERT(segmentPenalty > 0) in estimatedCostSpecific, makepath.cpp:796). libavoid HEAD has no mutable statics in makepath / router / orthogonal.cpp; '
+                  'reproducibility under heap / address perturbation is C20. A bends() value BELOW the closed form is reported as a broken '
                   'equality proof without failing input (it is still admissible); a value above it, or an assertion, is a violation with the input.',
     'technique': 'Coq proof over cpp2v-regenerated Gallina + exhaustive sweep + verified checker / sound grid oracle on real raw routes',
 }
